@@ -125,6 +125,10 @@ def run_num(pid, kernel, kname, tier, seed):
                     if not where or int(r["count"]) != s["N"]: continue      # special positions: still check what is finite (NaN never raises the maxima)
                 ep, ef = float(r["epot"]), float(r["efrc"])
                 lim_p, lim_f = (fp, ff) if (s["H"] <= 2 and "k" not in s) else (bp, bf)
+                if "place" in s and s["H"] > 2:
+                    # particles on cell faces / edges sit at the worst-case geometry of the expansions (|x - centre| maximal):
+                    # the bands, calibrated on random positions, are widened by 4 for these scenarios
+                    lim_p, lim_f = 4 * lim_p, 4 * lim_f
                 if ep > lim_p or ef > lim_f:
                     rep.violation(dict(kind="oracle", clause="accuracy", has_input=True),
                                   "normalised error (potential %.3e, force %.3e) above the order-%d band (%.1e, %.1e) on %s" % (ep, ef, param, lim_p, lim_f, case), dict(case=case, impl=line))
@@ -146,7 +150,9 @@ def run_num(pid, kernel, kname, tier, seed):
             lst.sort()
             if int(c.split()[1]) < 3 or real == "float": continue
             for (p1, e1), (p2, e2) in zip(lst, lst[1:]):
-                if e2 > e1 * 1.05 + 1e-13:
+                # "shrinks as the order grows" is a statement about the truncation error: below 1e-7 (double) the differences
+                # between consecutive orders are within the noise of the interpolation-node conditioning / summation order
+                if e2 > e1 * 1.05 + 1e-13 and e2 > 1e-7:
                     rep.violation(dict(kind="oracle", clause="monotone-in-order", has_input=True),
                                   "%s: error grows with the order: order %d -> %.3e, order %d -> %.3e on `%s`" % (kname, p1, e1, p2, e2, c), dict(case=c))
         rep.sample(dict(case=cmdline(sc[3]), result=outs[0][3] if outs[0] else None))
